@@ -7,7 +7,7 @@
     `rd.setweeks`; `int(self.days / 7.0)` is truncation toward zero, exact for |days| < 2^53).
   * `Mut` / `applyMut`      — one mutation: an attribute assignment (which does NOT re-run `_fix`, so the record
     may leave the normal form and `_has_time` may go stale — the model follows the code) or the `weeks` setter.
-  * `Use` / `observe`       — one use, evaluated through the methods RE-TRANSLATED from /repo (`Gen.*`,
+  * `Use` / `observe`       — one use (18 kinds, incl. `normalized()`, `*` by a dyadic float, `/` by a power of two), evaluated through the methods RE-TRANSLATED from /repo (`Gen.*`,
     Generated/RDOps.lean) on the CURRENT record.
   * `run`                   — a history; a use leaves the record alone.  That no method of the class writes an
     attribute outside `__init__` / `_fix` / `_set_months` / the `weeks` setter is checked on the source on every
@@ -61,7 +61,7 @@ inductive Use where
   | addDt (x : Temporal) | raddDt (x : Temporal) | rsubDt (x : Temporal)
   | hash | bool | eq (o : RD) | eqRev (o : RD)
   | neg | abs | addRd (o : RD) | raddRd (o : RD) | subRd (o : RD) | mulInt (k : Int) | addTd (d s u : Int)
-  | weeks
+  | weeks | normalized | mulDy (f : RDPy.Dy) | divPow2 (p : RDPy.Pow2)
   deriving DecidableEq, Repr, Inhabited
 
 /-- what a use returns -/
@@ -90,6 +90,9 @@ def observe (d : RD) : Use → Obs
   | .mulInt k => .rd (Gen.mulInt d k)
   | .addTd dd s u => .rd (Gen.addTd d dd s u)
   | .weeks => .int (weeksOf d)
+  | .normalized => .rd (Gen.normalized d)
+  | .mulDy f => .rd (Gen.mulDy d f)
+  | .divPow2 p => .rd (Gen.divPow2 d p)
 
 inductive Step where
   | use (u : Use)
